@@ -109,8 +109,12 @@ class TrackingBackend:
             raise TargetError(target.name) from exc
 
     def close(self):
-        self.ops.close()
-        dump_json_atomically(self._tracked_jobs, self._get_state_path())
+        # The tracked jobs must be saved even if the backend cannot shut down
+        # cleanly (e.g. the connection to the local workers was lost).
+        try:
+            self.ops.close()
+        finally:
+            dump_json_atomically(self._tracked_jobs, self._get_state_path())
 
     @property
     def target_defaults(self):
